@@ -265,7 +265,7 @@ var translationAssumptions = []string{
 	"the VC generator gvc itself (own code, no independent checker): /verif/gvc",
 	"integers are mathematical (no wrap-around); unsigned values carry a >= 0 range fact",
 	"a string is a finite sequence of bytes; slices have value semantics (no aliasing through append)",
-	"goroutines are verified one at a time as sequential procedures (channels carry protocols, select is a nondeterministic choice, go checks the callee's precondition and frame): interleavings, blocking, cancellation instants, leaks and races are NOT modelled; mutexes, WaitGroups, contexts and errgroup have no effect in the model",
+	"goroutines are verified one at a time as sequential procedures (channels carry protocols, select is a nondeterministic choice, go checks the callee's precondition and frame): interleavings, blocking, cancellation instants, leaks and races are NOT modelled; mutexes, WaitGroups and contexts have no effect in the model; errgroup has a trusted sequential model (Go runs its task once, Wait reports whether a task failed)",
 	"facts a goroutine relies on between two of its steps are not invalidated by other goroutines (ownership of a tree travels with the channel message); shared state is covered only by the rely clauses",
 	"a closure's precondition is checked where the closure is created and assumed when it runs; a closure runs at most once (true of every closure in the repository: each is consumed by one iter.Pull2, range or go statement)",
 	"coroutines (iter.Pull2): nothing about the heap survives a resume of the producer except what the stream contract says; heap separation between trees already yielded and the tree under construction is not modelled",
@@ -291,7 +291,17 @@ func RunCheck(cfg CheckConfig) int {
 		loads = []load{{"tinywasm,verif", "tinywasm:"}, {"verif", ""}}
 	}
 	timeout := 10
-	sc := SolverConfig{TimeoutSec: timeout, Jobs: 16}
+	sc := SolverConfig{TimeoutSec: timeout, Jobs: 16, NoRetry: map[string]bool{}}
+	if data, err := os.ReadFile(filepath.Join(cfg.VerifDir, "known_findings.json")); err == nil {
+		kf0 := &KnownFindings{}
+		if json.Unmarshal(data, kf0) == nil {
+			for _, f := range kf0.Findings {
+				if f.Status != "fixed" {
+					sc.NoRetry[f.Obligation] = true
+				}
+			}
+		}
+	}
 	if cfg.Tier == "thorough" {
 		sc.TimeoutSec = 60
 		sc.AllSolvers = true
